@@ -69,12 +69,19 @@ func NewPriorityPolicy(stats tally.Scope, priorityPolicy string) (*PriorityPolic
 // by the priorityPolicy. Excludes the source peer from the list.
 func (p *PriorityPolicy) SortPeers(source *core.PeerInfo, peers []*core.PeerInfo) []*core.PeerInfo {
 	peerPriorities := make([]*peerPriorityInfo, 0, len(peers))
+	seen := make(map[core.PeerID]struct{}, len(peers))
 	for _, peer := range peers {
 		// Compare peer ids rather than pointers: the source peer comes from the
 		// announce request, whereas peers come from the peer / origin stores.
 		if peer.PeerID == source.PeerID {
 			continue
 		}
+		// A peer id is handed out once, even if the stores list it several
+		// times (e.g. under two endpoints, or as both agent and origin).
+		if _, ok := seen[peer.PeerID]; ok {
+			continue
+		}
+		seen[peer.PeerID] = struct{}{}
 		priority, label := p.policy.assignPriority(peer)
 		peerPriorities = append(peerPriorities, &peerPriorityInfo{peer, priority, label})
 	}
